@@ -27,6 +27,7 @@ def run(ctx, deep=False):
         total += frame_try.run_gen(ctx, gen, 800 if thorough else 100)
     ctx.count("whole-frames", total)
     constructed_texts(ctx, frame_try)
+    special_header_registers(ctx, frame_try)
     # several messages of varying size accepted while the link is down and flushed together (each is sized when accepted, encoded
     # when flushed): every frame on the wire is the frame of its own message
     import sockcheck
@@ -70,6 +71,56 @@ def constructed_texts(ctx, frame_try):
             if hm is None or hm[1] != ext.ExtendedMessage(m):
                 ctx.violation("C03:%d:constructed-text" % gen, "AirTouch %d %s message %r: sent as %s, received as %s" % (gen, what, m, data.hex(), txt[:300]), kind="input",
                               gen=gen, implementation_output=txt[:300], spec_verdict="the message that was sent")
+                break
+
+
+def special_header_registers(ctx, frame_try):
+    """frames whose CRC register has a special value (0x0000, 0xFFFF, 0x00FF, 0xFF00) when the header section has been covered and the
+    payload is about to be: the real send path must still produce the check bytes of the whole covered section (judged by the independent
+    CRC of the Spec) and the real receive path must hand the message back. About one header in 16000 is of this kind: packet id and
+    message length are searched for (console version messages of 0..250 characters, all 256 packet ids)."""
+    import dataclasses
+    import importlib
+    for gen in (4, 5):
+        real = frame_try.Real(gen)
+        ver = importlib.import_module("pyairtouch.at%d.comms.x1FFF30_console_ver" % gen)
+        ext = importlib.import_module("pyairtouch.at%d.comms.x1F_ext" % gen)
+        mk = lambda n: ext.ExtendedMessage(ver.ConsoleVersionMessage(update_available=False, versions=["v" * n]))
+        wire, data = real.send(mk(1), 0)
+        if data is None:
+            ctx.tie_broken("C03:send-path", "the send path no longer transmits a console version message: %s" % wire)
+            continue
+        h0 = real.read_one(data)[1][0]
+        base = h0.message_length - 1
+        hits = []
+        for n in range(0, 251):          # (the text length is one byte)
+            for pid in range(256):
+                eh = real.reg.header_encoder.encode(dataclasses.replace(h0, packet_id=pid, message_length=base + n))
+                if real.crc(bytes(eh.checksum_data)) in (b"\x00\x00", b"\xff\xff", b"\x00\xff", b"\xff\x00"):
+                    hits.append((n, pid))
+        sent = []
+        for n, pid in hits[:40]:
+            m = mk(n)
+            wire, data = real.send(m, pid)
+            sent.append((n, pid, m, data, wire))
+        want = ctx.oracle(["crc " + (codec.hx(bytes(d[real.cs_start:-2])) if d else "-") for _, _, _, d, _ in sent]) if sent else []
+        for (n, pid, m, data, wire), w in zip(sent, want):
+            ctx.case(("special-header-register", gen, n, pid))
+            ctx.count("special-header-register:%d" % gen)
+            why = None
+            if data is None:
+                ctx.count("special-header-register:unencodable")
+                continue
+            if data[-2:].hex() != w.lower():
+                why = "the frame ends in check bytes %s, the CRC-16/MODBUS of the covered bytes is %s" % (data[-2:].hex(), w)
+            else:
+                txt, hm = real.read_one(data)
+                if hm is None or hm[1] != m:
+                    why = "the receive path answers %s" % txt[:120]
+            if why:
+                ctx.violation("C03:%d:special-header-register" % gen, "AirTouch %d console version message of %d characters sent with packet id %d (the CRC register is 0x0000 / 0xFFFF / "
+                              "0x00FF / 0xFF00 after the header section): %s" % (gen, n, pid, why), kind="input", gen=gen, chars=n, packet_id=pid,
+                              implementation_output=why, spec_verdict="check bytes of the whole covered section; the message comes back")
                 break
 
 
